@@ -88,7 +88,25 @@ def case_models():
         ("i", {"class": "", "value": 3}),
         ("c", {"inner": {"class": "B", "value": 4}, "tags": ["u", "v"]}),
         ("o", {"inner": {"value": 5}, "x_2": "bad"}),
+        ("o", {"tags": ["only"]}),                       # required property missing
+        ("c", {"inner": {"value": 6}, "zzz": 1}),        # additionalProperties=False
     ]
+
+
+def case_additional():
+    """keys that are NOT declared: additionalProperties / patternProperties build their property
+    objects per key and per call"""
+    E, P = _lib()
+    root = E.Element(properties={"a": P(E.Integer())}, patternProperties={"^p_": E.String(maxLength=2)},
+                     additionalProperties=E.Integer(minimum=0))
+
+    class Bag(E.Object, additionalProperties=E.Array(E.Integer())):
+        a = P(E.Integer())
+
+    return {"r": root, "b": Bag}, [
+        ("r", {"a": 1, "extra1": 2}), ("r", {"extra2": 3, "p_x": "s"}), ("r", {"p_y": 5}),
+        ("r", {"other": "str"}), ("b", {"k1": [1], "k2": [2, 3]}), ("b", {"a": 2, "k3": [4]}),
+        ("b", {"k4": ["x"]})]
 
 
 def case_array_objs():
@@ -230,7 +248,8 @@ def cases(tier):
         Case("elem2", case_elem2, [(0, 4), (1, 2), (0, 3), (0, 1, 2)]),
         Case("wide", case_wide, [(0, 1), (0, 2), (3, 4), (0, 5), (0, 1, 2)]),
         Case("leafs", case_leafs, [(0, 1), (2, 3), (4, 5)]),
-        Case("models", case_models, [(0, 1), (2, 4), (3, 5), (0, 2), (0, 2, 4)]),
+        Case("models", case_models, [(0, 6), (2, 7), (0, 1), (2, 4), (3, 5), (0, 2), (0, 2, 4)]),
+        Case("additional", case_additional, [(0, 1), (4, 5), (1, 2), (0, 3), (5, 6), (0, 1, 3)]),
         Case("array_objs", case_array_objs, [(0, 1), (2, 3), (0, 2), (4, 5), (0, 1, 2)]),
         Case("anyof", case_anyof, [(0, 1), (2, 5), (3, 4), (0, 2)]),
         Case("defaults", case_defaults, [(0, 1), (2, 3), (0, 4), (0, 1, 4)]),
@@ -304,13 +323,14 @@ class World:
         MON.active = False
         MON.reset()
         self.instrumented = instrument
-        if instrument:
-            self._register()
         if variant == "warm":
+            # every call of the group once, sequentially, BEFORE the objects are registered: what
+            # the first calls leave behind (caches, ...) then belongs to the pre-existing objects
             _r2, p2 = case.mk()            # separate payload objects for the warm-up
             for i in self.group:
                 do_call(self.roots[p2[i][0]], p2[i][1])
         if instrument:
+            self._register()
             MON.prime()
         self.tree0 = self.tree()
 
